@@ -215,6 +215,14 @@ def run_cases(inp):
             d["roles"] = {r: {"features": {f: True for f in fl}}}
             raw[2] = d
             check = ("features", r, fl)
+        elif c["what"] == "role":
+            r = c["key"]
+            v = concretise(c["c"])
+            own = ("subscriber", "publisher", "caller", "callee") if t == "hello" else ("broker", "dealer")
+            d = copy.deepcopy(raw[2])
+            d["roles"] = {r: v} if r in own else {own[idx % len(own)]: {}, r: v}
+            raw[2] = d
+            check = ("role", r, v)
         elif c["what"] == "reqtype":
             raw[1] = c["i"]
             check = ("pos", 1, c["i"])
@@ -242,6 +250,8 @@ def run_cases(inp):
                 elif check[0] == "feature":
                     f = out[2].get("roles", {}).get(check[1], {}).get("features", {})
                     preserved = f.get(check[2]) == check[3] or (check[3] in (False, None) and check[2] not in f)
+                elif check[0] == "role":
+                    preserved = check[1] in out[2].get("roles", {}) or c["verdict"] == "either"
                 elif check[0] == "pos":
                     i = check[1]
                     preserved = i < len(out) and norm(out[i]) == norm(check[2]) or (check[2] in ([], {}, None) and i >= len(out)) \
